@@ -19,17 +19,29 @@ inputs are fuzzed by the harness (see meta/C12.json "partial").
 import DosModel.Proofs.Handlers
 import DosModel.Proofs.HandlersDkg
 import DosModel.Proofs.HandlersNode
+import DosModel.Proofs.HandlersIso
 
 namespace Dos.Props.C12
 open Dos Dos.Handlers
 
 /-! ### the inventory -/
 
+set_option maxRecDepth 16384 in
 /-- every extracted site has exactly one table entry with exactly the extracted guard, and vice versa -/
 theorem inventory_matches : pairsGen = pairsTable := by rfl
 
 /-- no function of the anchored files is called from the reach set without being classified -/
 theorem reach_closed : Gen.PanicSites.unlisted = [] := by rfl
+
+/-- every entry classified `.guarded` (safe because of the guard / structural fact the extractor found,
+not modelled) has, in the regenerated inventory, a guard of a class that suffices for its kind: nil
+comparison of the dereferenced operand, `len`/`range` bound of the indexed value, comma-ok form, plain
+map read, deferred close of a channel made by the same function, write to a map made by the same function -/
+theorem guarded_sites_checked : guardedOK = true := by decide +kernel
+
+/-- how the sites are accounted for: (modelled — flag / cross-function flag / model branch —,
+safe by extracted guard (checked above), safe by prose argument: the trusted classifications) -/
+theorem classification_counts : classCounts = (86, 88, 83) := by decide +kernel
 
 /-- every guard the models rely on is present in the current source -/
 theorem guards_present : Cfg.current = Cfg.all := by decide +kernel
@@ -48,6 +60,27 @@ theorem session_layer_total (evs : List SessEv) :
   have := sessRun_inv evs {} sessInit_inv
   exact ⟨this.1.alive, this.2⟩
 
+/-- **sessions do not interfere** (the maps of the loop are keyed by session id): in ANY event list —
+junk, duplicates and registrations of other sessions, expiry sweeps that do not report `s'` done —
+the events of session `s'` are answered exactly as if they were alone (`vrun` sees only `s'`'s
+buffer and expected count). -/
+theorem sessions_independent (s' : String) (evs : List SessEv)
+    (hx : ∀ e ∈ evs, ∀ d, e = .expire d → d.contains s' = false) :
+    outsFor s' evs (sessRun Cfg.current {} evs).2 = vrun ⟨[], none⟩ (evs.filter (touches s')) := by
+  rw [guards_present]
+  have := outsFor_eq_vrun s' evs hx {} sessInit_inv
+  simpa [view, alookup] using this
+
+/-- **the node keeps serving OTHER sessions**: whatever is sent about any other session S (junk
+included, before, during and after), a complete honest exchange of a different session `s'` among
+`n + 1` members ends with all `n` peer messages handed to its stage. -/
+theorem other_session_still_served (s' : String) (n : Nat) (hn : 0 < n) (evs : List SessEv)
+    (hx : ∀ e ∈ evs, ∀ d, e = .expire d → d.contains s' = false)
+    (hrun : evs.filter (touches s') = honestRun s' n) :
+    (outsFor s' evs (sessRun Cfg.current {} evs).2).getLast? = some (.ok s!"fire {n}") := by
+  rw [sessions_independent s' evs hx, hrun]
+  exact vrun_honest s' n hn
+
 /-- **exchangePub**: any mix of element types in any batching is an error or a wait, never a failed assertion -/
 theorem exchangePub_total (n : Nat) (self : Elem) (bs : List (List Elem)) :
     (exchangePub Cfg.current n self bs).isPanic = false := by
@@ -59,7 +92,7 @@ theorem exchangePub_hands_over_n (n : Nat) (self : Elem) (bs : List (List Elem))
   rw [guards_present] at h
   cases self with
   | other => simp [exchangePub] at h
-  | good j => exact xpubLoop_count n bs 1 i h
+  | good j sd hk => exact xpubLoop_count n bs 1 i h
 
 /-- **genDistKeyGenerator → NewDistKeyGenerator → NewDealer** on the `n` public-key messages
 `exchangePub` hands over: any index (also ≥ n), missing / identity / undecodable key, duplicates. -/
@@ -75,8 +108,13 @@ theorem deal_response_total (st : DkgSt) (ops : List DkgOp) :
     ∀ o ∈ (dkgRun Cfg.current st ops).2, o.isPanic = false := by
   rw [guards_present]; exact dkgRun_total ops st
 
-/-- … and the generator keeps serving: after ANY such history an honest deal from a member that has
-not dealt yet is approved. -/
+/-- … and the generator keeps serving WITHIN the same session: after ANY such history an honest deal
+from a member that has not dealt yet is approved. The hypothesis `hnew` (no verifier stored under that
+dealer index yet) is essential and is exactly the code's behaviour: `ProcessDeal` stores the verifier
+before it looks at the deal, so ONE junk deal under index j makes the genuine deal of j "already
+received" and the stage of THIS session gives up (a peer can abort the session it takes part in: C05).
+What the property asks for — other sessions and requests keep being served — is
+`other_session_still_served`, `other_session_deals_served` and `queryLoop_still_serves`. -/
 theorem honest_deal_still_served (st : DkgSt) (ops : List DkgOp) (idx t : Nat)
     (hidx : idx < st.n) (hme : st.me < st.n) (ht : validT t st.n = true)
     (hnew : vlookup idx (dkgRun Cfg.current st ops).1.vers = none)
@@ -85,6 +123,19 @@ theorem honest_deal_still_served (st : DkgSt) (ops : List DkgOp) (idx t : Nat)
   rw [guards_present] at *
   have := honest_deal_served (dkgRun Cfg.all st ops).1 idx t (by rw [hn]; exact hidx) hnew (by rw [hn]; exact ht) (by rw [hn, hm]; exact hme)
   rw [hm] at this; exact this
+
+/-- **another session has its own generator**: whatever happened in other sessions (their
+`DistKeyGenerator`s are different objects: `DkgSt` is per session), in a new session the honest deals
+of all other members are approved one after the other. -/
+theorem other_session_deals_served (n me t : Nat) (hme : me < n) (ht : validT t n = true) (dealers : List Nat)
+    (hnd : dealers.Nodup) (hd : ∀ i ∈ dealers, i < n ∧ i ≠ me) :
+    ∀ o ∈ (dkgRun Cfg.current (DkgSt.init n me) (dealers.map (fun i => .deal (honestDeal i me t)))).2, o = .ok "approval" := by
+  rw [guards_present]
+  apply honest_deals_run t dealers (DkgSt.init n me) hme ht hnd
+  intro i hi
+  have := hd i hi
+  refine ⟨this.1, ?_⟩
+  simp [DkgSt.init, vlookup, Ne.symm this.2]
 
 /-- **genGroup → DistKeyShare**: after ANY history of deals and responses every aggregator the
 generator holds stores a deal whose share has a value, so `DistKeyShare` never dereferences a missing
@@ -182,6 +233,11 @@ example : (sessRun Cfg.all {} [.req "a" 2, .msg "a" (.pk 1), .msg "a" (.pk 1), .
     = [.ok "reg 0", .ok "buf 1", .ok "dup", .ok "fire 2"] := by decide
 example : (sessRun Cfg.all {} [.req "a" 2, .msg "a" (.pk 1), .expire ["a", "b", "a"], .expire ["a"], .msg "a" (.pk 2), .req "a" 1, .msg "a" (.pk 3), .expire ["a"]]).2
     = [.ok "reg 0", .ok "buf 1", .ok "expired 1", .ok "expired 0", .ok "buf 1", .ok "fire 1", .ok "buf 1", .ok "expired 0"] := by decide
+example : outsFor "b" [.req "b" 2, .msg "a" (.deal 7), .msg "b" (.pk 0), .req "a" 1, .expire ["a"], .msg "a" (.pk 0), .msg "b" (.pk 1)]
+    (sessRun Cfg.all {} [.req "b" 2, .msg "a" (.deal 7), .msg "b" (.pk 0), .req "a" 1, .expire ["a"], .msg "a" (.pk 0), .msg "b" (.pk 1)]).2
+    = [.ok "reg 0", .ok "buf 1", .ok "fire 2"] := by decide
+example : (exchangePub Cfg.all 3 (.good 0) [[.good 1, .good 2 false]]) = .err "foreign" := by decide
+example : (exchangePub { Cfg.all with xpubIdx := false } 3 (.good 0) [[.good 7]]).isPanic = true := by decide
 example : genDkg Cfg.all 3 [⟨0, some .own⟩, ⟨1, some (.peer 1)⟩, ⟨2, some .identity⟩] = .ok "" := by decide
 example : genDkg Cfg.all 3 [⟨0, some .own⟩, ⟨7, some (.peer 1)⟩, ⟨2, none⟩] = .err "badpk" := by decide
 example : (genDkg { Cfg.all with gdkgGuard := false } 3 [⟨0, some .own⟩, ⟨7, some (.peer 1)⟩, ⟨2, some (.peer 2)⟩]).isPanic = true := by decide
